@@ -19,6 +19,9 @@ import (
 //
 // ty: element type the generic function is instantiated at — 0 int, 1 string
 // ("v<n>"), 2 float64 (n + 0.25); values on the wire are the integers n.
+// ty 3: float64 with NaN and signed zeros — the words are float codes and the key
+// functions are float functions (c11nan.go).  ty 4: *int, the pointers numbered 2k and 2k+1
+// point to equal ints (== is pointer identity; the model is the one of ty 0).
 // key functions k: 0 id, 1 x%2, 2 const 0, 3 x/2, 4 |x|   (conjugated with the renaming)
 // tree (prefix code): 0 v = T; 1 n v.. = []T; 2 n t.. = []any;
 // 3 = a scalar of another type, 4 = nil, 5 = a slice of another type (all "wrong dynamic type")
@@ -48,6 +51,7 @@ type c11Codec[T comparable] struct {
 	dec      func(T) int
 	badSc    any // a scalar of another dynamic type
 	badSlice any // a slice of another dynamic type
+	key      func(int) func(T) T // key functions on T itself (nil: c11Key conjugated with enc/dec)
 }
 
 var c11Int = c11Codec[int]{enc: func(x int) int { return x }, dec: func(x int) int { return x },
@@ -55,6 +59,28 @@ var c11Int = c11Codec[int]{enc: func(x int) int { return x }, dec: func(x int) i
 var c11Str = c11Codec[string]{enc: func(x int) string { return "v" + strconv.Itoa(x) },
 	dec:   func(s string) int { n, _ := strconv.Atoi(s[1:]); return n },
 	badSc: 7, badSlice: []int{1}}
+// T = *int: == is pointer identity; the pointers with codes 2k and 2k+1 point to EQUAL ints, so a
+// comparison that looks through the pointer (reflect.DeepEqual, *a == *b) merges what == keeps apart.
+var c11PtrPool = map[int]*int{}
+var c11PtrCode = map[*int]int{}
+
+func c11PtrOf(x int) *int {
+	p, ok := c11PtrPool[x]
+	if !ok {
+		v := x >> 1
+		p = &v
+		c11PtrPool[x], c11PtrCode[p] = p, x
+	}
+	return p
+}
+
+var c11Ptr = c11Codec[*int]{enc: c11PtrOf, dec: func(p *int) int {
+	if c, ok := c11PtrCode[p]; ok {
+		return c
+	}
+	return 777777777 // a pointer the harness did not hand in
+}, badSc: "x", badSlice: []int{1}}
+
 var c11Flt = c11Codec[float64]{enc: func(x int) float64 { return float64(x) + 0.25 },
 	dec:   func(f float64) int { return int(math.Floor(f)) },
 	badSc: "x", badSlice: []float32{1}}
@@ -111,6 +137,9 @@ func c11Tree[T comparable](c c11Codec[T], r *R, depth int) any {
 
 func c11Exec[T comparable](c c11Codec[T], fn int, r *R) []int64 {
 	keyT := func(k int) func(T) T {
+		if c.key != nil {
+			return c.key(k)
+		}
 		f := c11Key(k)
 		return func(t T) T { return c.enc(f(c.dec(t))) }
 	}
@@ -189,6 +218,10 @@ func execC11(in []int64) []int64 {
 			res = c11Exec(c11Str, fn, r)
 		case 2:
 			res = c11Exec(c11Flt, fn, r)
+		case 3:
+			res = c11Exec(c11NaN, fn, r)
+		case 4:
+			res = c11Exec(c11Ptr, fn, r)
 		default:
 			res = c11Exec(c11Int, fn, r)
 		}
@@ -201,7 +234,7 @@ func execC11(in []int64) []int64 {
 var c11Names = map[int]string{1: "Unique", 2: "UniqueBy", 3: "Union", 4: "Intersection", 5: "IntersectionBy",
 	6: "Difference", 7: "DifferenceBy", 8: "Without", 9: "Duplicate", 10: "DuplicateWithIndex"}
 var c11KeyNames = []string{"id", "x%2", "const0", "x/2", "abs"}
-var c11TyNames = []string{"int", "string", "float64"}
+var c11TyNames = []string{"int", "string", "float64", "float64(NaN,-0)", "*int"}
 
 func c11TreeText(r *R, depth int) string {
 	if depth > 64 || len(r.w) == 0 {
@@ -236,10 +269,13 @@ func describeC11(in []int64) string {
 	if len(in) < 2 {
 		return ""
 	}
+	if in[1] == 3 {
+		return describeC11NaN(in)
+	}
 	r := &R{w: in}
 	fn, ty := r.Int(), r.Int()
 	name := c11Names[fn]
-	if ty >= 0 && ty < 3 {
+	if ty >= 0 && ty < len(c11TyNames) {
 		name += "[" + c11TyNames[ty] + "]"
 	}
 	kn := func(k int) string {
@@ -432,8 +468,8 @@ func genC11(g *Gen) {
 		}
 	}
 
-	// --- exhaustive at the other two element types: every slice over {0,1,2} up to length 3, every pair
-	for ty := 1; ty <= 2; ty++ {
+	// --- exhaustive at the other element types (string, float64, *int): every slice over {0,1,2} up to length 3, every pair
+	for _, ty := range []int{1, 2, 4} {
 		var shorts [][]int
 		slicesOver(a3, 3, func(s []int) { shorts = append(shorts, cloneInts(s)) })
 		for _, s1 := range shorts {
@@ -457,6 +493,7 @@ func genC11(g *Gen) {
 
 	c11Large(g, emit)
 	c11Extreme(g, emit)
+	genC11NaN(g, emit)
 
 	// --- seeded random: longer slices, wider alphabets, the three element types
 	var randTree func(d int) ([]int64, int, bool)
@@ -713,5 +750,5 @@ func c11Extreme(g *Gen, emit func(string, bool, *W)) {
 
 func init() {
 	register(&Prop{ID: "C11", Exec: execC11, Gen: genC11, Describe: describeC11,
-		Rule: "exhaustive (T=int): every slice over {0,1,2,3} up to length 5 (thorough 6) for Unique/UniqueBy(id,%2,const,/2)/Duplicate/DuplicateWithIndex/1-ary Intersection(By); every pair (first <= 4 (thorough 5), second <= 3 over {0,1,2,3}) for Difference/Without/DifferenceBy/2-ary Intersection(By) with keys %2,const,/2; every triple over {0,1,2} (first <= 4 (thorough 6), others <= 2) for Intersection(By); Union on every nesting of depth <= 2 over {0,1,[]T{1,0},[]T{},wrong type} and depth <= 3 over {0,[]T{1,0},wrong type} with <= 2 children per []any; the same helpers at T=string and T=float64 on every slice / pair over {0,1,2} up to length 3; malformed: no argument, nil and wrong-typed nodes; large (both tiers): Intersection(By) of 5/33/64/65/70/130/257/300 slices where one argument (first, middle, 64th, 65th, 256th, 257th, last) lacks a value or is empty, k copies of [1] then an empty slice, Without/Difference(By) with k listed values, slices of 100/130/257/500/1023/2000 elements (few / n/2 / n distinct values) through every helper, Union on nestings of depth 40/200/1000 and width 300/2000 with the wrong-typed node at the bottom / at the end; extreme: element values at the 32-bit boundaries and at +-2^62 (T=int, string); then seeded random slices up to length 16 at int/string/float64 and random nestings to depth 5. non-trivial = the first argument has >= 2 elements and (a repeated value, or — for the binary/variadic helpers — a further non-empty argument); UniqueBy: >= 2 elements; Union: nesting depth >= 2 or a wrong-typed node; distinct = distinct wire input"})
+		Rule: "exhaustive (T=int): every slice over {0,1,2,3} up to length 5 (thorough 6) for Unique/UniqueBy(id,%2,const,/2)/Duplicate/DuplicateWithIndex/1-ary Intersection(By); every pair (first <= 4 (thorough 5), second <= 3 over {0,1,2,3}) for Difference/Without/DifferenceBy/2-ary Intersection(By) with keys %2,const,/2; every triple over {0,1,2} (first <= 4 (thorough 6), others <= 2) for Intersection(By); Union on every nesting of depth <= 2 over {0,1,[]T{1,0},[]T{},wrong type} and depth <= 3 over {0,[]T{1,0},wrong type} with <= 2 children per []any; the same helpers at T=string, T=float64 and T=*int (pointers 0 and 1 point to equal ints: == is identity) on every slice / pair over {0,1,2} up to length 3; malformed: no argument, nil and wrong-typed nodes; large (both tiers): Intersection(By) of 5/33/64/65/70/130/257/300 slices where one argument (first, middle, 64th, 65th, 256th, 257th, last) lacks a value or is empty, k copies of [1] then an empty slice, Without/Difference(By) with k listed values, slices of 100/130/257/500/1023/2000 elements (few / n/2 / n distinct values) through every helper, Union on nestings of depth 40/200/1000 and width 300/2000 with the wrong-typed node at the bottom / at the end; extreme: element values at the 32-bit boundaries and at +-2^62 (T=int, string); then seeded random slices up to length 16 at int/string/float64 and random nestings to depth 5; " + c11NaNRule + " non-trivial = the first argument has >= 2 elements and (a repeated value, or — for the binary/variadic helpers — a further non-empty argument); UniqueBy: >= 2 elements; Union: nesting depth >= 2 or a wrong-typed node; distinct = distinct wire input"})
 }
